@@ -47,7 +47,7 @@ Example C02_nonvacuous :
   let p' := {| ip := 281470698652161; port := 7001 |} in   (* same IP, other port *)
   let q := {| ip := 281470698652162; port := 7000 |} in
   snd (run cfg (init 100)
-    [EReq c 1 cr (RqAllocate (APresent 17%N) AAbsent AAbsent false (Some 49152%N)) false;
+    [EReq c 1 cr (RqAllocate (APresent 17%N) AAbsent AAbsent false (Some 49152%N) false AAbsent 0%N) false;
      EReq c 2 cr (RqChannelBind (APresent 16384%N) (Some (PeerOk p))) false;
      EPeer r p [9]%N; EPeer r p' [9]%N; EPeer r q [9]%N;
      ETick (301 * sec); EPeer r p' [9]%N; EPeer r p [9]%N;
